@@ -3,7 +3,6 @@
 set -e
 cd "$(dirname "$0")"
 export GOFLAGS=-mod=mod GOPROXY=off GOSUMDB=off GOTOOLCHAIN=local
-cp /repo/go.sum ./go.sum 2>/dev/null || true
 go1.26.8 build -o /dev/null ./instrument
 go1.26.8 vet ./simrt/... >/dev/null 2>&1 || true
 # warm the caches (plain and race) by building the uninstrumented dependencies once
